@@ -391,25 +391,35 @@ func runC03_4(c *core.Ctx) {
 	}
 	f := a.polling
 	g := f.Graph()
-	// find the task variable: the object assigned from a Dequeue call
-	var task types.Object
+	// the task variables: the objects assigned from a Dequeue call (one per drain loop when the loops were
+	// given their own variable); each is followed through its own dequeue → Exec → PutTask cycle
+	var tasks []types.Object
 	ast.Inspect(f.Decl.Body, func(n ast.Node) bool {
 		if as, ok := n.(*ast.AssignStmt); ok && len(as.Rhs) == 1 && len(as.Lhs) == 1 {
 			if call, ok := ast.Unparen(as.Rhs[0]).(*ast.CallExpr); ok && a.qCall(f, call, a.dequeue) != nil {
 				if o := flow.ObjOf(f.Info, as.Lhs[0]); o != nil {
-					if task != nil && task != o {
-						c.Undecided(f.Name, "task variable", as.Pos(), "more than one variable receives dequeued tasks; idiom not recognised")
+					known := false
+					for _, t := range tasks {
+						known = known || t == o
 					}
-					task = o
+					if !known {
+						tasks = append(tasks, o)
+					}
 				}
 			}
 		}
 		return true
 	})
-	if task == nil {
+	if len(tasks) == 0 {
 		c.Undecided(f.Name, "task variable", f.Decl.Pos(), "no variable assigned from Dequeue()")
 		return
 	}
+	for _, task := range tasks {
+		taskCycleC03_4(c, a, f, g, task)
+	}
+}
+
+func taskCycleC03_4(c *core.Ctx, a *pollerAnchors, f *fn, g *flow.Graph, task types.Object) {
 	const (
 		sNone = iota
 		sHeld
